@@ -200,7 +200,7 @@ func init() {
 		ID:          "C14",
 		HarnessDirs: []string{"c14"},
 		Pkg:         "github.com/cloudwego/thriftgo/fieldmask",
-		Diff:        []string{"D_C14_1", "D_C14_2", "D_C14_3", "D_C14_4"},
+		Diff:        []string{"D_C14_1", "D_C14_2", "D_C14_3", "D_C14_4", "D_C14_5", "D_C14_6"},
 		Functions: []string{"fieldmask.NewFieldMask", "fieldmask.(*FieldMask).addPath", "fieldmask.(*pathIterator).Next/lit/str", "fieldmask.newPathToken",
 			"fieldmask.(*FieldMask).Field/Int/Str/All/GetPath/PathInMask", "fieldmask.fieldMap/intMap/strMap", "thrift_reflection.RegisterAST + lookups", "strconv.Atoi/Unquote"},
 		Bounds: "totality: fixed context prefix (11 contexts) + N free bytes (quick N<=2, thorough N<=4), digit strings up to 20 digits; semantics: masks of two field paths over 15 declared ids (incl. 62..65 around the head/tail storage split, 300) with a FREE int16 query id, white and black list; list indices / int keys written with free digits and a string key with a free byte, in three orders/groupings, queried with a FREE index / key",
@@ -212,6 +212,8 @@ func init() {
 			{Func: "H_C14_field", Quick: rng(0, 1), Covers: []string{"in", "out"}},
 			{Func: "H_C14_index", Quick: rng(0, 1), Covers: []string{"end", "key"}},
 			{Func: "H_C14_query", Quick: tuples3(seq(0, 5), seq(0, 5), seq(0, 1)), Covers: []string{"end"}},
+			{Func: "H_C14_json", Quick: tuples3(seq(0, 8), seq(0, 5), seq(0, 1)), Covers: []string{"end"}},
+			{Func: "H_C14_transfer", Quick: tuples([]int64{1, 3}, seq(0, 5)), Thorough: tuples(seq(0, 3), seq(0, 5)), Covers: []string{"accepted", "rejected"}},
 		},
 	})
 }
